@@ -309,6 +309,154 @@ def run_c08(ck):
     })
 
 
+RUN_V = """(* GENERATED per run: RunUntil over the regenerated interpreters (C12 iii) *)
+From Coq Require Import ZArith List NArith.
+From Lib Require Import ZOps Machine.
+From Gen Require Import GenFields.
+From Gen Require GenCpu65 GenCpuAlt.
+From Model Require Import Disasm.
+From Props Require Import SafeLib RunProps.
+From Run Require C12_GenCpu65 C12_GenCpuAlt.
+Local Open Scope Z_scope.
+Definition flds : fields := mkfields f_RK f_PC f_M f_X f_RA f_RAl f_RX f_RXl f_RY f_RYl f_N f_V f_D f_I f_Z f_C.
+
+(* System.RunUntil over cpu65c816 (the interpreter the System embeds): for every start state with fields in their Go
+   types, every target and every budget below 2^64 - 255, and ANY fuel above the budget: it returns (never OutOfFuel,
+   never Crash), says true exactly when PBR:PC equals the target on exit, executes nothing when already there, and
+   gives up only when the budget is used up *)
+Theorem C12_run_until_65 : forall fuel target maxc s acc,
+  Inv (Bty fwidth) s -> 0 <= maxc -> maxc + 255 < 2 ^ 64 -> (Z.to_nat maxc < fuel)%nat ->
+  exists b c s',
+    run_until flds GenCpu65.Step None fuel target maxc 0 s acc = Done b c s' acc /\\
+    (b = true <-> get_pc flds s' = target) /\\ (get_pc flds s = target -> s' = s) /\\
+    (b = false -> maxc <= c) /\\ c < maxc + 255 /\\ Inv (Bty fwidth) s'.
+Proof. exact (C12_run_until flds GenCpu65.Step (Inv (Bty fwidth)) C12_GenCpu65.step_contract_GenCpu65). Qed.
+
+Theorem C12_run_until_alt : forall fuel target maxc s acc,
+  Inv (Bty fwidth) s -> 0 <= maxc -> maxc + 255 < 2 ^ 64 -> (Z.to_nat maxc < fuel)%nat ->
+  exists b c s',
+    run_until flds GenCpuAlt.Step None fuel target maxc 0 s acc = Done b c s' acc /\\
+    (b = true <-> get_pc flds s' = target) /\\ (get_pc flds s = target -> s' = s) /\\
+    (b = false -> maxc <= c) /\\ c < maxc + 255 /\\ Inv (Bty fwidth) s'.
+Proof. exact (C12_run_until flds GenCpuAlt.Step (Inv (Bty fwidth)) C12_GenCpuAlt.step_contract_GenCpuAlt). Qed.
+
+(* every executed Step started under the budget and away from the target *)
+Theorem C12_run_steps_65 : forall fuel target maxc s,
+  Inv (Bty fwidth) s -> 0 <= maxc -> maxc + 255 < 2 ^ 64 -> (Z.to_nat maxc < fuel)%nat ->
+  exists l r, run_tr flds GenCpu65.Step fuel target maxc 0 s = Some (l, r) /\\
+              Forall (step_pre flds (Inv (Bty fwidth)) target maxc) l.
+Proof.
+  intros fuel target maxc s H Hm0 Hm Hf.
+  destruct (run_tr_total flds GenCpu65.Step (Inv (Bty fwidth)) C12_GenCpu65.step_contract_GenCpu65 fuel target maxc 0 s H
+              ltac:(apply Z.le_refl) Hm ltac:(apply Z.lt_le_trans with (m := 1); [reflexivity|]; apply Z.le_trans with (m := 0 + 255); [discriminate | apply Z.add_le_mono_r; exact Hm0])
+              ltac:(rewrite Z.sub_0_r; exact Hf)) as (l & b & c & s' & Hr & Hl & _).
+  exists l, (b, c, s'). split; assumption.
+Qed.
+Print Assumptions C12_run_until_65.
+Print Assumptions C12_run_until_alt.
+Print Assumptions C12_run_steps_65.
+"""
+
+TIE_V = """From Coq Require Import ZArith List Bool.
+From Props Require Import RunTie.
+Import ListNotations.
+Local Open Scope Z_scope.
+Definition cases : list (Z * Z * bool * Z * list (Z * Z)) := [
+%s
+].
+Definition bad := Eval vm_compute in bad_cases cases.
+Print bad.
+Lemma tie : bad = []. Proof. reflexivity. Qed.
+"""
+
+
+def run_c12(ck):
+    models, corr, tie_ok, stats = common(ck, "C12")
+    harness, _ = vlib.build_harness()
+    if models:
+        def one(mod):
+            txt8, _ = cpusafe.generate(os.path.join(vlib.GEN, mod + ".v"), mod)
+            p8 = os.path.join(vlib.RUN, "C08_%s.v" % mod)
+            vlib.write_if_changed(p8, txt8)
+            rc8, out8, dt8, _ = vlib.coqc(p8, timeout=1800)
+            txt, info = cpusafe.generate_c12(os.path.join(vlib.GEN, mod + ".v"), mod)
+            pv = os.path.join(vlib.RUN, "C12_%s.v" % mod)
+            vlib.write_if_changed(pv, txt)
+            if rc8 != 0:
+                return mod, info, rc8, out8, dt8, False
+            rc, out, dt, cached = vlib.coqc(pv, timeout=1800)
+            return mod, info, rc, out, dt8 + dt, cached
+        all_ok = True
+        for (mod, info, rc, out, dt, cached) in vlib.parallel([lambda m=m: one(m) for m in ("GenCpu65", "GenCpuAlt")]):
+            m = re.search(r"\(in proof (\w+)\)", out)
+            failing = m.group(1) if m else (out[-700:] if rc != 0 else "")
+            all_ok = all_ok and rc == 0
+            ck.oblige("Theorem C12_step_%s : forall s, Inv (Bty fwidth) s -> Step s reports 1 <= cycles <= 255, AllCycles' = add64 AllCycles cycles, flag = (Stopped' <> 0), "
+                      "Stopped' = Stopped or 1  [every opcode x M x X x E x D.l x page crossing x branch outcome; interval lemmas for the %d routines that adjust the counter, "
+                      "per-opcode table fact cyc_room_all by vm_compute; STP opcode(s) %s; %.0fs%s]" % (mod, len(info.get("setters", [])), info.get("stp_opcodes"), dt, ", cached" if cached else ""),
+                      rc == 0, "first lemma that no longer checks: " + failing)
+            if rc == 0:
+                ck.assumptions += vlib.parse_assumptions(out)
+            elif not ck.violations:
+                ck.violation("C12.theorem.%s.%s" % (mod, failing.split()[0] if failing else "x"), "broken-theorem",
+                             "cycle-accounting lemma %s over the regenerated model %s no longer checks; the Go falsifiers (cycles >= 1 on every case, RunUntil contract) found no failing input" % (failing, mod),
+                             {"lemma": failing, "file": "build/work/Run/C12_%s.v" % mod})
+        if all_ok:
+            pv = os.path.join(vlib.RUN, "C12_run.v")
+            vlib.write_if_changed(pv, RUN_V)
+            rc, out, dt, cached = vlib.coqc(pv, timeout=900)
+            ck.oblige("Theorems C12_run_until_65 / C12_run_until_alt / C12_run_steps_65 : RunUntil returns for every start state, target, budget < 2^64-255 and any fuel > budget; "
+                      "truthful answer; nothing executed at the target; every executed Step started under the budget (static Props/RunProps.v instantiated with this run's Step contract)", rc == 0, out[-800:])
+            if rc == 0:
+                ck.assumptions += vlib.parse_assumptions(out)
+    # RunUntil on the real System: falsifier + tie of the loop model on the recorded trajectories
+    if harness:
+        ncase = 3000 if ck.tier == "thorough" else 400
+        shards = vlib.parallel([(lambda i=i: vlib.sh([harness, "rununtil", "-seed", str(ck.seed * 100 + i), "-n", str(ncase)], timeout=1200)) for i in range(8)])
+        rows, nfail, fl = [], 0, []
+        for (rc, out, _) in shards:
+            for line in out.splitlines():
+                if line.startswith("CASE "):
+                    head, tr = line.split(" T", 1)
+                    _, cid, target, maxc, ret, steps = head.split()
+                    pairs = "; ".join("(%s, %s)" % tuple(t.split(":")) for t in tr.split())
+                    rows.append("  (%s, %s, %s, %s, [%s])" % (target, maxc, "true" if ret == "1" else "false", steps, pairs))
+                elif line.startswith("FAIL C12"):
+                    fl.append(line)
+        for l in fl[:5]:
+            mm = re.search(r"pseed=(\d+) target=(\w+) maxc=(\d+)", l)
+            ck.violation("C12.rununtil." + (mm.group(1) if mm else "x"), "counterexample", l, {"line": l, "how": "harness rununtil"})
+        tie = False
+        detail = ""
+        if rows:
+            files = []
+            per = 400
+            for k in range(0, len(rows), per):
+                pv = os.path.join(vlib.RUN, "Cases_C12_%d.v" % (k // per))
+                vlib.write_if_changed(pv, TIE_V % ";\n".join(rows[k:k + per]))
+                files.append(pv)
+            res = vlib.parallel([(lambda f=f: vlib.coqc(f, timeout=900)) for f in files])
+            tie = all(r[0] == 0 for r in res)
+            detail = next((r[1][-800:] for r in res if r[0] != 0), "")
+        ck.oblige("tie: Model.Disasm.run_until replayed on the recorded trajectory of the real CPU gives the observed (result, executed steps) of System.RunUntil on every case (Lemma tie, %d cases)" % len(rows), tie, detail)
+        if not tie and not fl:
+            ck.violation("C12.tie.rununtil", "broken-correspondence", "the RunUntil loop model and the compiled System.RunUntil disagree: " + detail[-400:], {"file": "build/work/Run/Cases_C12_*.v"})
+        ck.cov["rununtil_cases"] = len(rows)
+        ck.cov["traces_validated_against_impl"] = ck.cov.get("traces_validated_against_impl", 0) + len(rows)
+        if rows:
+            ck.sample({"rununtil_case(target,maxc,result,steps,trajectory)": rows[0][:300]})
+    bad = vlib.foreign_assumptions(ck.assumptions)
+    ck.oblige("Print Assumptions: closed under the global context", not bad, "unexpected: %s" % bad)
+    ck.sample({"theorem": "C12_step_GenCpu65", "statement": "forall s, Inv (Bty fwidth) s -> safe (fun r s' => (exists c, r = (c, z2b (get f_Stopped s')) /\\ 1 <= c <= 255 /\\ get f_AllCycles s' = add64 (get f_AllCycles s) c /\\ (get f_Stopped s' = get f_Stopped s \\/ get f_Stopped s' = 1)) /\\ Inv (Bty fwidth) s') (Step s)"})
+    ck.cov.update({
+        "distinct_nontrivial": stats.get("cases", 0) + ck.cov.get("rununtil_cases", 0),
+        "rule": "theorems: all states / targets / budgets (unbounded). Tie/falsifier: CPU cases as for C02/C08 (cycles and callback events are part of the compared trace; FAIL C12 if a Step reports < 1 cycle) "
+                "plus RunUntil cases: random programs on the real System, targets on/off the trajectory, budgets 0, 1, exact, +-1, random, with counting Logger and OnPC callbacks on every fetched address and on the target",
+        "checker_cmd": "coqc build/work/Run/C08_*.v C12_*.v C12_run.v Cases_C12_*.v",
+        "callbacks": "OnPC / OnWDM: compared event by event in the lockstep tie (P:/D: trace events) and counted by the RunUntil falsifier; no separate theorem",
+    })
+
+
 def replay(pid, rp):
     r = rp.get("replay", {})
     harness, herr = vlib.build_harness()
